@@ -353,6 +353,35 @@ macro_rules! div_round_const_harness {
 div_round_const_harness!(ring_div_round_const_i64, i64, i128, [1, -1, 2, -2, 3, -3, 5, 7, -7, 10, 16, -1000003, 4294967311]);
 div_round_const_harness!(ring_div_round_const_i32, i32, i64, [1, -1, 2, -2, 3, -3, 5, 7, -7, 10, 16, -1000003, 46337]);
 
+// ------------------------------------------------------------------ Ratio<i64>: canonical form and field operations
+// (witness search / replay for the Verus unit `ratio`; Kani: bounded stand-in, gcd loops unwound)
+fn gcd_i128(a: i128, b: i128) -> i128 { let (mut a, mut b) = (a.abs(), b.abs()); while b != 0 { let t = a % b; a = b; b = t; } a }
+fn canon(r: &Ratio<i64>, n: i128, d: i128) -> bool {
+    // r is n/d in lowest terms with positive denominator
+    let (p, q) = (*r.numer() as i128, *r.denom() as i128);
+    q > 0 && gcd_i128(p, q) == 1 && p * d == n * q
+}
+pub fn ring_ratio_ops(s: &mut Src) -> R {
+    let (a, b, c, d) = (s.small(-12, 12), s.small(-12, 12), s.small(-12, 12), s.small(-12, 12));
+    pre!(b != 0 && d != 0);
+    reach!();
+    let (x, y) = (Ratio::<i64>::new(a, b), Ratio::<i64>::new(c, d));
+    let (a, b, c, d) = (a as i128, b as i128, c as i128, d as i128);
+    ob!(canon(&x, a, b) && canon(&y, c, d), "Ratio::new-lowest-terms");
+    ob!(canon(&(&x + &y), a * d + c * b, b * d), "Ratio::add-lowest-terms-and-value");
+    ob!(canon(&(&x - &y), a * d - c * b, b * d), "Ratio::sub-lowest-terms-and-value");
+    ob!(canon(&(&x * &y), a * c, b * d), "Ratio::mul-lowest-terms-and-value");
+    ob!(canon(&(-&x), -a, b), "Ratio::neg-lowest-terms-and-value");
+    if c != 0 { ob!(canon(&(&x / &y), a * d, b * c), "Ratio::div-lowest-terms-and-value"); }
+    ob!((x == y) == (a * d == c * b), "Ratio::eq-iff-same-rational");
+    ob!(((&x + &y) - &y) == x, "Ratio::(x+y)-y==x");
+    let mut t = x.clone(); t += &y; let mut u = x.clone(); u *= y.clone(); let mut w = x.clone(); w -= &y;
+    ob!(t == &x + &y && u == &x * &y && w == &x - &y && x.clone() + y.clone() == &x + &y, "Ratio::operator-forms-agree");
+    ob!(x.is_zero() == (a == 0) && x.is_one() == (a == b) && x.is_unit() == (a != 0), "Ratio::is_zero/is_one/is_unit");
+    if let Some(v) = x.inv() { ob!(&x * &v == Ratio::one(), "Ratio::x*inv==1"); }
+    Ok(())
+}
+
 crate::harness_table!(RING:
     ring_div_round_i32, ring_div_round_i64, ring_div_round_i128, ring_div_round_const_i64, ring_div_round_const_i32,
     ring_int_units_i32, ring_int_divides_i32, ring_int_units_i64, ring_int_divides_i64,
@@ -361,6 +390,6 @@ crate::harness_table!(RING:
     ring_ff2p_inv [unwind 8], ring_ff3_inv [unwind 8], ring_ff5_inv [unwind 8], ring_ff7_inv [unwind 10], ring_ff46337_inv [unwind 30],
     ring_f2,
     ring_qint_addsub_i32, ring_qint_mul_i32, ring_gauss_units_i32 , ring_eisen_units_i32 [unwind 8], ring_gauss_divrem_i32, ring_eisen_divrem_i32,
-    ring_gauss_gcd [unwind 6], ring_ff5_gcd [unwind 6],
+    ring_gauss_gcd [unwind 6], ring_ff5_gcd [unwind 6], ring_ratio_ops [unwind 8],
     ring_qint_addsub_i64, ring_qint_mul_i64, ring_gauss_units_i64, ring_eisen_units_i64 [unwind 8], ring_gauss_divrem_i64, ring_eisen_divrem_i64,
 );
